@@ -39,8 +39,8 @@ var axisSources = []axisSource{
 	{op: "ArgMax", field: "axis", input: -1, kind: "axis", props: []string{"C09"}, negOK: true},
 	{op: "ReduceMax", field: "axes", input: -1, kind: "axes", props: []string{"C09"}, negOK: true},
 	{op: "ReduceMin", field: "axes", input: -1, kind: "axes", props: []string{"C09"}, negOK: true},
-	{op: "Softmax", field: "axis", input: -1, kind: "axis", props: []string{"C09"}, negOK: true},
-	{op: "LogSoftmax", field: "axis", input: -1, kind: "axis", props: []string{"C09"}, negOK: true},
+	{op: "Softmax", field: "axis", input: -1, kind: "axis", props: []string{"C09", "C16"}, negOK: true},
+	{op: "LogSoftmax", field: "axis", input: -1, kind: "axis", props: []string{"C09", "C16"}, negOK: true},
 }
 
 // axis contracts of external callees: which argument is an axis and what the callee does with it.
@@ -339,6 +339,18 @@ func ruleR9(c *Ctx, prop string) {
 						sc := cl.Common().StaticCallee()
 						if sc == nil || (fnPkgPath(sc) != "sort" && fnPkgPath(sc) != "slices") {
 							continue
+						}
+						if fnPkgPath(sc) == "slices" {
+							// only the functions of package slices that move elements
+							base := sc.Name()
+							if i := strings.Index(base, "["); i >= 0 {
+								base = base[:i]
+							}
+							switch base {
+							case "Sort", "SortFunc", "SortStableFunc", "Reverse", "Compact", "CompactFunc", "Delete", "DeleteFunc", "Insert", "Replace":
+							default:
+								continue
+							}
 						}
 						for _, a := range cl.Common().Args {
 							if D.has(a) {
@@ -876,7 +888,7 @@ func (c *Ctx) checkDuplicatesRejected(label string, apply *ssa.Function, reach m
 							for _, b2 := range f.Blocks {
 								for _, in2 := range b2.Instrs {
 									if c2, ok := in2.(*ssa.Call); ok {
-										if o := calleeObj(c2); o != nil && o.Pkg() != nil && o.Pkg().Path() == "sort" && len(c2.Common().Args) > 0 && D.has(c2.Common().Args[0]) && instrBefore(c2, call) {
+										if o := calleeObj(c2); o != nil && o.Pkg() != nil && (o.Pkg().Path() == "sort" || (o.Pkg().Path() == "slices" && (o.Name() == "Sort" || o.Name() == "SortFunc" || o.Name() == "SortStableFunc"))) && len(c2.Common().Args) > 0 && D.has(c2.Common().Args[0]) && instrBefore(c2, call) {
 											sorted = true
 										}
 									}
@@ -1482,37 +1494,49 @@ func ruleAxisAccept(c *Ctx, prop string) {
 				if flatten {
 					hi = r
 				}
-				ext := make([]int64, r)
-				for i := range ext {
-					ext[i] = int64(i) + 2
+				base := make([]int64, r)
+				for i := range base {
+					base[i] = int64(i) + 2
 				}
-				for a := -r; a <= hi; a++ {
-					cell := &axisCell{rank: r, extents: ext, axis: a, norm: normAxes([]int64{a}, r), desc: fmt.Sprintf("%s = %d on an operand of shape %s (valid range [%d, %d])", src.field, a, fmtInts(ext), -r, hi)}
-					if flatten {
-						na := cell.norm[0]
-						cell.shape = []int64{prodInts(ext[:na]), prodInts(ext[na:])}
+				variants := [][]int64{base}
+				if src.op == "Softmax" || src.op == "LogSoftmax" {
+					// a unit extent at every position in turn: "one sample", "one class", "one row" are where
+					// shortcuts around the kernel's row handling hide
+					for j := int64(0); j < r && r > 1; j++ {
+						v := append([]int64{}, base...)
+						v[j] = 1
+						variants = append(variants, v)
 					}
-					if src.op == "ArgMax" {
-						kept := append([]int64{}, ext...)
-						kept[cell.norm[0]] = 1
-						cell.shape = kept
-					}
-					if src.op == "Gather" {
-						// output shape = data[:axis] ++ indices.shape ++ data[axis+1:], for index tensors of rank 0..2
-						for _, ish := range [][]int64{{}, {2}, {3, 2}} {
-							c2 := *cell
-							c2.shapes = map[int64][]int64{1: ish}
-							c2.lists = map[int64][]int64{1: make([]int64, prodInts(ish))}
+				}
+				for _, ext := range variants {
+					for a := -r; a <= hi; a++ {
+						cell := &axisCell{rank: r, extents: ext, axis: a, norm: normAxes([]int64{a}, r), desc: fmt.Sprintf("%s = %d on an operand of shape %s (valid range [%d, %d])", src.field, a, fmtInts(ext), -r, hi)}
+						if flatten {
 							na := cell.norm[0]
-							c2.outShape = append(append(append([]int64{}, ext[:na]...), ish...), ext[na+1:]...)
-							c2.desc = cell.desc + fmt.Sprintf(" and an index tensor of shape %s", fmtInts(ish))
-							cells++
-							ar.run(apply, args, &c2, false)
+							cell.shape = []int64{prodInts(ext[:na]), prodInts(ext[na:])}
 						}
-						continue
+						if src.op == "ArgMax" {
+							kept := append([]int64{}, ext...)
+							kept[cell.norm[0]] = 1
+							cell.shape = kept
+						}
+						if src.op == "Gather" {
+							// output shape = data[:axis] ++ indices.shape ++ data[axis+1:], for index tensors of rank 0..2
+							for _, ish := range [][]int64{{}, {2}, {3, 2}} {
+								c2 := *cell
+								c2.shapes = map[int64][]int64{1: ish}
+								c2.lists = map[int64][]int64{1: make([]int64, prodInts(ish))}
+								na := cell.norm[0]
+								c2.outShape = append(append(append([]int64{}, ext[:na]...), ish...), ext[na+1:]...)
+								c2.desc = cell.desc + fmt.Sprintf(" and an index tensor of shape %s", fmtInts(ish))
+								cells++
+								ar.run(apply, args, &c2, false)
+							}
+							continue
+						}
+						cells++
+						ar.run(apply, args, cell, false)
 					}
-					cells++
-					ar.run(apply, args, cell, false)
 				}
 			}
 			if prop == "C07" || prop == "C08" {
